@@ -1045,6 +1045,7 @@ func (in *Interp) callBuiltin(caller *frame, pos token.Pos, fn *ssa.Builtin, arg
 		case *Value:
 			return BV(64, uint64(len((*x).(Array))))
 		case Slice:
+			x.chkOpq()
 			return BV(64, uint64(x.len))
 		case *Map:
 			if x == nil {
